@@ -3,6 +3,8 @@
 Domain   generated trees (depth <= 5, empty directories, equal-content siblings, names from the full alphabet, ignored
          .DS_Store entries) x non-empty subsets of the six formats; then an in-place rename of a file or folder or a
          content edit; a permuted enumeration order of directory entries.
+         Later additions: `-co -ro` prints the root hash alone; `verify -dh -co` on the changed tree while the history is
+         present; a format named twice with -h; anchored patterns ('/name') with a deeper namesake that stays in.
 Oracle   refhash.dirhash - the definition evaluated over a nested dict with hashlib/xxhash and our own c4 codec
          (anchored by the literal vectors of the repository's tests, replayed in the regression tier) - compared with
          every <directoryhash>/<roothash> written by create in every requested format and with the lines printed
